@@ -193,6 +193,22 @@ def generate(rng, run, tier):
         prelude = [{'op': 'fwd_def', 'text': text, 'nfuncs': rng.choice([1, 1, 2])}]
         threads = [[{'op': 'fwd_call', 'f': rng.randrange(2), 'xk': rng.choice(['inst', 'inst', 'wrapped', 'other', 'int'])}
                     for _ in range(rng.randint(1, 3))] for _ in range(nthreads)]
+    if rng.random() < 0.06:
+        # scenario "registry race": every thread registers two packages under its own configuration; all lists share one
+        # name, placed first by one thread and later by the others; pre-emption concentrated on the registration code
+        # (check-then-act between the conflict pre-check and the registry mutation)
+        shared_name = rng.choice(PKG_NAMES)
+        rest = [n for n in PKG_NAMES if n != shared_name]
+        rng.shuffle(rest)
+        confs = [None, {'tower': True}, {'vt': 'warn'}, {'is_color': False, 'tower': True}]
+        rng.shuffle(confs)
+        threads = []
+        for ti in range(nthreads):
+            names = [shared_name, rest[ti]] if ti == 0 else [rest[ti], shared_name]
+            threads.append([{'op': 'claw_pkg', 'names': names, 'conf': confs[ti % len(confs)] if rng.random() < 0.85 else confs[0]}])
+        prelude = []
+        strategy = {'kind': 'hotpct', 'points': sorted(rng.sample(range(1, 260), rng.choice([2, 3, 4]))), 'hot': ['clawpkgmain.py'],
+                    'p_cold': rng.choice([0.0, 0.001])}
     avoid_cw = rng.random() < 0.8
     if avoid_cw:
         # known finding C15-catch-warnings: warnings.catch_warnings is process-global. Most runs steer around it:
